@@ -31,6 +31,10 @@ CHECKS = {
         text="Lean proof that replace-mode Emplace over any well-formed destination yields the destination with exactly the shared bodies replaced, frame and B-only pairs identical, idempotent, and that only the destination entry of the file world changes (C18_sync_result, C18_shared_bodies_replaced, C18_rest_of_B_untouched, C18_B_only_pairs_kept, C18_idempotent, C18_only_destination_written, flatten_splitLines); tied to the code by differential runs of Generate.FileSync against Model.fileSync and against a by-name splice oracle, bytes of A, B and the directory listing compared.",
         ref="DESIGN.md 6/C18", technique="Lean 4 proof (induction over documents, replace mode) + model/implementation correspondence",
         note="Same trusted base as C01. 'Comment style' means characters CleanUpLine strips (/ * # ~ ` @ $ % ? + } ] > = and white space); styles such as <!-- --> are outside the tool's notion of a tag line."),
+    "C06": dict(
+        text="Lean proofs that the result does not depend on the modelled sources of ambient nondeterminism: set iteration order (sorting is permutation-invariant, with the regenerated fact that every loop over a type-name set iterates sorted(...)), directory-listing order of the template folder (permutation of the code model, via C04 isolation), clock/platform (no shipped template mentions the tags; search-and-replace is the identity there), and the absolute LostCode name; interpreter-level configurations (PYTHONHASHSEED, TZ, cwd, 6 spellings of the output directory, fake clock, shuffled os.walk) are exercised by a subprocess matrix comparing trees bytewise.",
+        ref="DESIGN.md 6/C06", technique="Lean 4 proof (permutation invariance, regenerated template facts) + subprocess configuration matrix + path-model correspondence",
+        note="The path algebra (join/normpath/abspath) is validated against os.path by correspondence, not proved equal under re-spelling; hash randomisation and os.walk themselves are runtime behaviour outside any model."),
 }
 PENDING = {}
 
